@@ -65,11 +65,12 @@ def pipeline_pager(R, prog, c, pk, P, lim, filt_p, map_p):
         clo = filters[0][1][0]
         cc = closure_ctx(prog, clo, params={2: ("elem",)})
         fcall = lambda t: t[0] == "call" and t[1].endswith("Fn::call") and any(fl(s_) for s_ in subterms(t[2][0]))
+        from engine.analysis import resolve_terms as _rt4
         w = cc.assume_ok(lambda s_: fl(s_) or (s_[0] == "field" and fl(s_[1])), True).assume_bool(fcall, False).settle()
-        rt_ = w.T.return_term()
+        rt_ = _rt4(prog, w.T.return_term(), 2, None, w.assumptions)
         good = rt_ == ("const", "bool", False) or (rt_[0] == "call" and fcall(rt_))
         w0 = cc.assume_ok(lambda s_: fl(s_) or (s_[0] == "field" and fl(s_[1])), False).settle()
-        good = good and w0.T.return_term() == ("const", "bool", True)
+        good = good and _rt4(prog, w0.T.return_term(), 2, None, w0.assumptions) == ("const", "bool", True)
     R.ob("C17.R1", "filtered-items-skipped", good, "the filter argument is not applied before take (or does not drop exactly the rejected items): steps %s" % methods, fn=pk)
     R.worlds += 2
 
@@ -186,8 +187,10 @@ def run(R, env):
         # every success path of the query function goes through the helper and returns its result
         from engine.analysis import must_pass
         through = must_pass(c, bi)
-        want = norm(("payload", c.T.call_term(c.body.blocks[bi]["term"], bi), "Ok/Some"))
-        carries = all(_all_paths_contain(term, want) for _, term in success_terms(c))
+        callt = c.T.call_term(c.body.blocks[bi]["term"], bi)
+        want = norm(("payload", callt, "Ok/Some"))
+        # (a thin wrapper returns the helper's Result as it is: the tail call is the answer)
+        carries = all(_all_paths_contain(term, want) or norm(term) == norm(callt) for _, term in success_terms(c))
         R.ob("C17.R2", v + ":every-answer-comes-from-the-helper", through and carries, "query %s has a success path that does not return the pagination helper's result (a shortcut answers some (cursor, limit, filter) triples differently)" % v, loc=c.body.loc(bi), fn=c.body.key)
         f = a[5]
         if filt is None:
@@ -249,6 +252,26 @@ def run(R, env):
                     okl = load is not None and load[0] == "call" and load[1] == "cw_storage_plus::Map::load" and ns_of(prog, load[2][0]) == "batches" and load[2][2] == ("id",)
                     R.ob("C17.R2", "BatchesByIds:loads-each-id", okl, "per-id load = %s" % fmt(load or res or ("none",))[:100], loc=c.body.loc(bi), fn=c.body.key)
                     R.ob("C17.R2", "BatchesByIds:keeps-exactly-the-Ok-loads", okl, "the filter does not map Ok(b) -> Some(b), Err -> None", loc=c.body.loc(bi), fn=c.body.key)
+    if not found_ids:
+        # spelling C: `for id in ids { if let Ok(b) = BATCHES.load(storage, id) { found.push(b) } }`
+        ids_p = lambda x: msg_field(x, "BatchesByIds", "ids")
+        for c, path in inline_walk(prog, qc, 3):
+            loads = [(bi, t, a) for bi, t, a in call_sites(c, lambda nm: nm == "cw_storage_plus::Map::load") if ns_of(prog, a[0]) == "batches" and is_next_elem(a[2], ids_p)]
+            if len(loads) != 1:
+                continue
+            found_ids = True
+            lbi, lt, la = loads[0]
+            lterm = c.T.call_term(lt, lbi)
+            pushes = [(bi, a) for bi, t, a in call_sites(c, lambda nm: nm == "std::vec::Vec::push")]
+            okl = True
+            okk = len(pushes) == 1 and norm(pushes[0][1][1]) == norm(("payload", lterm, "Ok/Some"))
+            if okk:
+                # the push happens exactly when the load succeeded
+                wok = c.assume_ok(lambda s_: norm(s_) == norm(lterm), True).settle()
+                werr = c.assume_ok(lambda s_: norm(s_) == norm(lterm), False).settle()
+                okk = pushes[0][0] in wok.T.reach and pushes[0][0] not in werr.T.reach
+            R.ob("C17.R2", "BatchesByIds:loads-each-id", okl, "per-id load", loc=c.body.loc(lbi), fn=c.body.key)
+            R.ob("C17.R2", "BatchesByIds:keeps-exactly-the-Ok-loads", okk, "the loop does not keep exactly the batches whose load succeeded", loc=c.body.loc(lbi), fn=c.body.key)
     R.ob("C17.R2", "BatchesByIds:shape", found_ids, "BatchesByIds is not ids.map(load).filter_map(ok)", fn="staking::contract::query")
     # ------------------------------------------------------------ R3
     found_ur = False
